@@ -159,6 +159,58 @@ theorem buildArgs_surplus : ∀ {ps : List Ty} {pre f : List Val} (extra : List 
       have := ih extra hb' hl hne
       simp [buildArgs, hc, this]
 
+/-! ### fitting arguments -/
+
+theorem convertNumber_ty_of_numeric {x : Num} {p : Ty} (h : p.isNumeric = true) :
+    (convertNumber oob x p).ty = some p := by
+  cases p <;> simp [Ty.isNumeric] at h
+  · simp only [convertNumber]
+    split
+    · split <;> simp [Val.ty]
+    · simp [Val.ty]
+  · simp [convertNumber, Val.ty]
+  · simp [convertNumber, Val.ty]
+
+/-- a fitting argument is accepted, as a value of exactly the parameter's type -/
+theorem checkArg_of_fits {p : Ty} {a : Val} (h : Fits p a) :
+    ∃ v, checkArg oob p a = .accept v ∧ v.ty = some p := by
+  rcases h with ⟨x, rfl, hn⟩ | ⟨ht, hna⟩
+  · refine ⟨convertNumber oob x p, ?_, convertNumber_ty_of_numeric hn⟩
+    simp [checkArg, convertNumber_ty_of_numeric (oob := oob) (x := x) hn]
+  · exact ⟨a, by rw [checkArg_of_not_f64 hna]; simp [ht], ht⟩
+
+theorem buildArgs_of_fits : ∀ {ps : List Ty} {as : List Val}, AllFit ps as →
+    ∃ f, buildArgs chk oob ps as = .ok f ∧ TypesMatch f ps := by
+  intro ps
+  induction ps with
+  | nil =>
+    intro as h
+    cases as with
+    | nil => exact ⟨[], by simp [buildArgs], trivial⟩
+    | cons _ _ => simp [AllFit] at h
+  | cons p ps ih =>
+    intro as h
+    cases as with
+    | nil => simp [AllFit] at h
+    | cons a as =>
+      simp only [AllFit] at h
+      obtain ⟨v, hv, hty⟩ := checkArg_of_fits (oob := oob) h.1
+      obtain ⟨f, hf, hall⟩ := ih h.2
+      exact ⟨v :: f, by simp [buildArgs, hv, hf], ⟨hty, hall⟩⟩
+
+theorem allAssignable_of_types : ∀ {f : List Val} {ps : List Ty},
+    TypesMatch f ps → allAssignable f ps = true := by
+  intro f
+  induction f with
+  | nil => intro ps h; cases ps <;> simp_all [TypesMatch, allAssignable]
+  | cons v vs ih =>
+    intro ps h
+    cases ps with
+    | nil => simp [TypesMatch] at h
+    | cons p ps =>
+      simp only [TypesMatch] at h
+      simp [allAssignable, valAssignable, h.1, assignable, ih h.2]
+
 /-! ### reflect.Call -/
 
 theorem allAssignable_length : ∀ {vs : List Val} {ts : List Ty},
